@@ -60,8 +60,8 @@ Proof.
   intros H1 H2 W. destruct (N.eq_dec mask 0) as [Z|NZ].
   - subst mask. rewrite (proj1 (C12_normalize_zero_stmt csize m s1)), (proj1 (C12_normalize_zero_stmt csize m s2)). reflexivity.
   - destruct (m_owner m) eqn:O.
-    + destruct (C12_normalize_owned_stmt csize mask m s1 H1 W O NZ) as (m1 & t1 & E1 & V1 & _).
-      destruct (C12_normalize_owned_stmt csize mask m s2 H2 W O NZ) as (m2 & t2 & E2 & V2 & _).
+    + destruct (C12_normalize_owned_value_stmt csize mask m s1 H1 W O NZ) as (m1 & t1 & E1 & V1 & _).
+      destruct (C12_normalize_owned_value_stmt csize mask m s2 H2 W O NZ) as (m2 & t2 & E2 & V2 & _).
       rewrite E1, E2. unfold op_value. cbn [fst snd]. rewrite V1, V2. reflexivity.
     + destruct (C12_normalize_borrowed_stmt csize mask m s1 H1 W O NZ) as (m1 & t1 & E1 & V1 & _).
       destruct (C12_normalize_borrowed_stmt csize mask m s2 H2 W O NZ) as (m2 & t2 & E2 & V2 & _).
